@@ -280,7 +280,12 @@ def tlc(tla, cfg, workers=None, simulate=None, depth=None, env=None, timeout=360
         else:
             res.violation = "tlc_error"
         i = out.find("Error:")
-        res.error_trace = out[i:i + 20000] if i >= 0 else out[-4000:]
+        if i < 0:
+            res.error_trace = out[-4000:]
+        elif len(out) - i <= 60000:
+            res.error_trace = out[i:]
+        else:  # long counterexamples: keep the header and the END (the last states are what callers read)
+            res.error_trace = out[i:i + 6000] + "\n[... %d characters omitted ...]\n" % (len(out) - i - 46000) + out[-40000:]
     if coverage:
         for mm in re.finditer(r"<(\w+) line (\d+), col \d+ to line \d+, col \d+ of module (\w+)>: (\d+):(\d+)", out):
             res.coverage["%s.%s" % (mm.group(3), mm.group(1))] = [int(mm.group(4)), int(mm.group(5))]
